@@ -614,6 +614,11 @@ func (f *Frame) execUnOp(st *State, x *ssa.UnOp) {
 				out.Fn, out.Bindings = sh.Fn, sh.Bindings
 			}
 		}
+		if v.Loc != nil && v.Loc.Kind == locHeap && vc.cellFns != nil {
+			if kf, ok := vc.cellFns[v.Loc.Idx.S]; ok {
+				out.Fn = kf
+			}
+		}
 		if v.Loc == nil || v.Loc.Kind == locHeap {
 			// value enters from the heap: background facts
 			if !isStruct(elem) {
